@@ -5,7 +5,10 @@
 pub use ::std::*;
 
 pub mod thread {
-    pub use ::std::thread::{current, panicking, park, sleep, yield_now, Thread, ThreadId};
+    pub use ::std::thread::{
+        available_parallelism, current, panicking, park, park_timeout, scope, sleep, yield_now, AccessError, LocalKey, Result, Scope, ScopedJoinHandle, Thread,
+        ThreadId,
+    };
     use ::std::panic::{catch_unwind, resume_unwind, AssertUnwindSafe};
 
     pub struct Builder(::std::thread::Builder, Option<String>);
